@@ -16,13 +16,14 @@ def main():
     print("lake build Strophe drv: %s in %.1fs" % ("ok" if ok else "FAILED", s))
     if not ok:
         print(log[-3000:])
-    try:
-        for v in ["std"]:
-            print("harness:", build.build_harness(v))
-    except build.BuildError as e:
-        print(e.what)
-        print(e.log)
-        return 1
+    engs = sorted(f[4:-2] for f in os.listdir(os.path.join(build.VERIF, "harness"))
+                  if f.startswith("eng_") and f.endswith(".c"))
+    for e in engs:
+        try:
+            print("harness %s:" % e, build.build_harness(e))
+        except build.BuildError as ex:
+            # reported again (as a broken tie) by the check of the property that uses this engine
+            print("harness %s: %s\n%s" % (e, ex.what, ex.log[-800:]))
     return 0 if ok else 1
 
 
